@@ -266,7 +266,7 @@ def run_job(job):
             ep["record_error"] = f"KeyError:{ex}"; gsr = gs
         out = roll(gsr, max_steps=nrun)
         jax.block_until_ready(out.state)
-        with HOSTLOCK: ep["calls"] = list(HOSTLOG)
+        ep["calls"] = aw.host_calls(N)
         if "record" in out.aux: ep["rows"] = canon_compiled_record(cfg, out.aux["record"])
         ep["final"] = canon_gs(out, names)
         res["episodes"].append(ep)
@@ -280,13 +280,13 @@ def run_job(job):
             gs, ss = jreset(gs)
             for i in range(int(G.max_steps)): gs, ss = jstep(gs)
             jax.block_until_ready(gs.step)
-            with HOSTLOCK: res["calls_gym"].append(list(HOSTLOG))
+            res["calls_gym"].append(aw.host_calls(N))
     if job.get("eps_out_of_range"):
         # an episode index beyond the recorded range is clipped to the last episode (C09): the same steps execute, once each, with their own seq
         del HOSTLOG[:]
         gs = G.init(jax.random.PRNGKey(job.get("seed", 0)), starting_eps=E + 2, starting_step=p0)
         out = roll(gs, max_steps=nrun); jax.block_until_ready(out.state)
-        with HOSTLOCK: res["calls_eps_oob"] = list(HOSTLOG)
+        res["calls_eps_oob"] = aw.host_calls(N)
     if job.get("paths"): res["paths"] = api_paths(job, G, names, N, cfg)
     return res
 
